@@ -1,5 +1,25 @@
-(* C04 (asyncio interleavings) - property theorems only (placeholder while the proofs are being written) *)
-From VT Require Import Check.C20Check.
-Theorem C04Async_placeholder : forall k : ccase, c20_eval k = c20_eval k.
-Proof. reflexivity. Qed.
-Print Assumptions C04Async_placeholder.
+(* C04, asyncio-interleaving part.  Property theorems only.
+   Model: Conc/ServerConc.v at asyncio granularity (one scheduling choice = everything a task
+   does between two suspension points; only sends and handler invocations suspend). *)
+From VT Require Import Conc.ConcProofs.
+
+(* For ANY number of concurrent terminating tasks (server.disconnect(), client DISCONNECT,
+   transport loss, on any sids / namespaces / transports), any well-formed quiescent start and
+   ALL schedules of any length: [outcome] - every disconnect handler runs at most once at any
+   moment and only for clients connected at the start; no task raises; a client whose handler
+   has not run keeps every membership and its callbacks; once all tasks have finished the
+   handler of every connected client some task was aimed at has run exactly once, the client is
+   in no room, not connected, not pending, its callbacks are gone, nothing is pending at all,
+   the environ of lost transports is gone and that of the others is kept. *)
+Theorem C04_once_async :
+  forall R m0 env0 causes, quiescent_start m0 -> forall sched,
+    outcome R m0 env0 causes (run_sched GAsync R causes sched m0 env0).
+Proof. exact once_async. Qed.
+Print Assumptions C04_once_async.
+
+(* The reason: no task is ever suspended between is_connected and pre_disconnect. *)
+Theorem C04_async_window_closed :
+  forall R m0 env0 causes, quiescent_start m0 -> forall sched t,
+    In t (c_tasks (run_sched GAsync R causes sched m0 env0)) -> window_of t = None.
+Proof. exact async_window_closed. Qed.
+Print Assumptions C04_async_window_closed.
